@@ -141,8 +141,8 @@ theorem li_setWorker (s : State) (w : Nat) (f : Worker → Worker)
   · simp
   · rfl
 
-@[simp] theorem li_buildNow (s : State) (p : Peer) (id : Id) (ops : List TxOp) :
-    li (buildNow s p id ops) = li s := by
+@[simp] theorem li_buildNow (s : State) (party : Party) (p : Peer) (id : Id) (ops : List TxOp) :
+    li (buildNow s party p id ops) = li s := by
   unfold buildNow; simp only; split
   · split
     · simp
@@ -413,9 +413,9 @@ theorem wl_wstep {s s' : State} {w pick : Nat} (h : wstep s w pick = some s') :
       split at h
       · rename_i e pr
         cases h
-        exact ⟨wl_of_li_eq (li_buildNow _ _ _ _) (wl_afterBlock _ _ _ _), wk, hw, Or.inl (by rw [hp]; rfl)⟩
+        exact ⟨wl_of_li_eq (li_buildNow _ _ _ _ _) (wl_afterBlock _ _ _ _), wk, hw, Or.inl (by rw [hp]; rfl)⟩
       · cases h
-        exact ⟨wl_of_li_eq (li_buildNow _ _ _ _) (wl_sendFinish _ _ _), wk, hw, Or.inr (by rw [hp]; rfl)⟩
+        exact ⟨wl_of_li_eq (li_buildNow _ _ _ _ _) (wl_sendFinish _ _ _), wk, hw, Or.inr (by rw [hp]; rfl)⟩
     · cases h
 
 end GS.RespLife
